@@ -23,9 +23,9 @@ def gen_token(rng):
         return b""
     if r < 0.45:
         return rng.choice([b"tk", b"a1b2c3", b"tokA"])
-    if r < 0.93:
+    if r < 0.97:
         return wild_bytes(rng)
-    return wild_bytes(rng, 300, 1500)           # very long
+    return wild_bytes(rng, 100, 700)            # very long (up to ~5 KB)
 
 
 def gen_path(rng):
